@@ -14,7 +14,7 @@ func init() {
 	register(&propertyDef{
 		id:    "C15",
 		title: "optional, one-of and or-disabled inputs mean what their tags say",
-		rules: []ruleFunc{c15R1, c15R2, c15R3, c15Shared, c15R7, c15R8, c15R9},
+		rules: []ruleFunc{c15R1, c15R2, c15R3, c15Shared, c15R7, c15R8, c15R9, c15R10},
 		decided: "the tag table of the YAML conversion: each tag dispatches to its builder, !soft-optional -> WaitForCompletion=false, !wait-optional -> true, !ordisabled -> one-of with discriminator `result`, option `enabled` = the given expression, option `disabled` = <step path>.disabled.output, !oneof requires `discriminator` and `one_of` (R1); " +
 			"run-time selection: an optional value is absent exactly when its group node is not among the parent's resolved dependencies and is otherwise the evaluation of its expression, absent values are dropped from maps; a one-of takes the option named by a resolved dependency of type Or, with the discriminator set to that option id, and the writer and reader of option node ids use the same separator (R2); " +
 			"group node ids are derived from the consumer node id and the path of the tagged field, which grows at every nesting level (R3); tags map to their dependency kinds (C10.R2) and all walkers know the three kinds (C02.R1); a step accounts for every And-successor of a finished stage, so `disabled` is always finished or impossible once enabling finished (R6 = C12.R9). The stage-failure handler marks the stage node and all output nodes of the failed stage (R7); the discriminator is the last write into a one-of value (R2).",
@@ -1133,4 +1133,76 @@ func (c *Ctx) optionalFlagTable(fn *ssa.Function, wf *types.Var) (map[string]str
 		})
 	}
 	return got, true
+}
+
+// C15.R10 a lifecycle edge is a completion edge only where the provider really goes on without the earlier stage.
+func c15R10(c *Ctx) {
+	const rule = "C15.R10"
+	c.explain("C15.R10 for every lifecycle edge A -> B that a provider declares as CompletionAndDependency (B waits until A is finished OR can no longer happen) some explored path of the step goroutine enters or finishes B without having finished A. Where the provider reaches B only through A, the edge has to be an AndDependency: otherwise, when A becomes impossible (its input can never arrive), the graph does not derive that B is impossible too — B is left pending, a `!wait-optional` / `!ordisabled` reference to it is never decided, and the run ends through the fallback detector instead of with the field absent")
+	n := 0
+	for _, prov := range []string{"plugin", "foreach"} {
+		ts := c.stepTraces(prov)
+		if len(ts.undecided) > 0 || len(ts.traces) == 0 {
+			c.undecided(rule, "explore:"+prov, "-", "the step goroutine could not be explored exhaustively: "+strings.Join(ts.undecided, "; "))
+			continue
+		}
+		pkg := pkgPlugin
+		if prov == "foreach" {
+			pkg = pkgForeach
+		}
+		pl := c.newPlit(pkg)
+		if pl == nil {
+			continue
+		}
+		stages := pl.lifecycleStages()
+		seqs := distinctSequences(ts)
+		var ids []string
+		for id := range stages {
+			ids = append(ids, id)
+		}
+		sort.Strings(ids)
+		for _, a := range ids {
+			var nexts []string
+			for b := range stages[a].nexts {
+				nexts = append(nexts, b)
+			}
+			sort.Strings(nexts)
+			for _, b := range nexts {
+				if stages[a].nexts[b] != "CompletionAndDependency" {
+					continue
+				}
+				n++
+				witness := ""
+				for _, si := range seqs {
+					aDone := false
+					for _, e := range si.notifs {
+						reachesB := false
+						switch e.Kind {
+						case "change":
+							if e.Args[0] == a {
+								aDone = true
+							}
+							if e.Args[0] == b || e.Args[2] == b {
+								reachesB = true
+							}
+						case "complete":
+							if e.Args[0] == a {
+								aDone = true
+							}
+							if e.Args[0] == b {
+								reachesB = true
+							}
+						}
+						if reachesB && !aDone && witness == "" {
+							witness = si.key
+						}
+					}
+				}
+				key := "edge:" + prov + ":" + a + ">" + b
+				c.verdict(witness != "", rule, key, "-", "the step reaches "+b+" without having finished "+a+" (sequence "+witness+")",
+					"the "+prov+" provider declares "+a+" -> "+b+" as a completion edge, but on every explored path it enters "+b+" only after finishing "+a+": when "+a+" becomes impossible the graph leaves "+b+" pending instead of deriving that it is impossible too")
+			}
+		}
+	}
+	c.minCount(rule, "declared completion edges", n, 4)
 }
